@@ -233,3 +233,46 @@ theorem sigdecodeDer_err {sig : Bytes} {n : Nat} {e : PyErr} (h : sigdecodeDer s
           · cases h
 
 end Util
+
+/-! ## DER strictness classes (appended) -/
+namespace Util
+open Der
+
+/-- bytes after the SEQUENCE -/
+theorem sigdecodeDer_trailing (r s n : Nat) (junk : Bytes) (hl : (encodeInteger r ++ encodeInteger s).length < 256 ^ 127)
+    (hj : junk ≠ []) :
+    sigdecodeDer (encodeSequence [encodeInteger r, encodeInteger s] ++ junk) n = .error .unexpectedDER := by
+  unfold sigdecodeDer
+  rw [removeSequence_encode [encodeInteger r, encodeInteger s] junk (by simpa using hl)]
+  simp [bind, Except.bind, hj]
+
+/-- bytes after `s` inside the SEQUENCE (a third INTEGER is one instance) -/
+theorem sigdecodeDer_inner_junk (r s n : Nat) (junk : Bytes) (hr : (intBody r).length < 256 ^ 127)
+    (hs : (intBody s).length < 256 ^ 127) (hl : (encodeInteger r ++ encodeInteger s ++ junk).length < 256 ^ 127)
+    (hj : junk ≠ []) :
+    sigdecodeDer (encodeSequence [encodeInteger r, encodeInteger s, junk]) n = .error .unexpectedDER := by
+  unfold sigdecodeDer
+  have h1 := removeSequence_encode [encodeInteger r, encodeInteger s, junk] [] (by simpa [List.append_assoc] using hl)
+  rw [List.append_nil] at h1
+  rw [h1]
+  simp only [bind, Except.bind, List.flatten_cons, List.flatten_nil, List.append_nil, ne_eq, not_true_eq_false, if_false]
+  rw [removeInteger_encode r _ hr]
+  simp only
+  rw [removeInteger_encode s junk hs]
+  simp [hj]
+
+/-- a SEQUENCE with a single INTEGER -/
+theorem sigdecodeDer_single (r n : Nat) (hr : (intBody r).length < 256 ^ 127)
+    (hl : (encodeInteger r).length < 256 ^ 127) :
+    sigdecodeDer (encodeSequence [encodeInteger r]) n = .error .unexpectedDER := by
+  unfold sigdecodeDer
+  have h1 := removeSequence_encode [encodeInteger r] [] (by simpa using hl)
+  rw [List.append_nil] at h1
+  rw [h1]
+  simp only [bind, Except.bind, List.flatten_cons, List.flatten_nil, List.append_nil, ne_eq, not_true_eq_false, if_false]
+  have h2 := removeInteger_encode r [] hr
+  rw [List.append_nil] at h2
+  rw [h2]
+  rfl
+
+end Util
